@@ -214,16 +214,18 @@ Lemma load_modules_c_m fuel : forall ms vm cs u, cache_ok (m_heap vm) cs ->
 Proof.
   induction ms as [|m r IH]; intros vm cs u K. { cbn. split; [reflexivity|exact K]. }
   cbn [load_modules_c load_modules].
-  pose proof (run_unit_c_m fuel vm cs u (mu_layout m) (mu_body m) K) as H.
-  destruct (run_unit_c C slot_of native_hint fuel vm cs u (mu_layout m) (mu_body m)) as [[[vm1 cs1] out] s].
+  assert (H : agrees (if mu_run m then run_unit_c C slot_of native_hint fuel vm cs u (mu_layout m) (mu_body m) else (vm, cs, [], SOk))
+                     (if mu_run m then run_unit C fuel vm (mu_layout m) (mu_body m) else (vm, [], SOk))).
+  { destruct (mu_run m); [now apply run_unit_c_m|split; [reflexivity|exact K]]. }
+  destruct (if mu_run m then run_unit_c C slot_of native_hint fuel vm cs u (mu_layout m) (mu_body m) else (vm, cs, [], SOk)) as [[[vm1 cs1] out] s].
   destruct H as [E K1]. rewrite E.
   destruct s; try (split; [reflexivity|exact K1]).
-  set (vm2 := if MODULE_SYNCS_BEFORE_EXPORTS then sync_loaded vm1 else vm1).
+  set (vm2 := if MODULE_SYNCS_BEFORE_EXPORTS && mu_run m then sync_loaded vm1 else vm1).
   set (vm3 := fold_left (fun v e => set_name v (fst e) (glookup (gmap v) (snd e))) (mu_exports m) vm2).
   set (cs2 := match mu_exports m with [] => cs1 | _ => clear cs1 end).
   assert (K3 : cache_ok (m_heap vm3) cs2).
   { unfold vm3, cs2. rewrite heap_exports. unfold vm2.
-    destruct MODULE_SYNCS_BEFORE_EXPORTS; rewrite ?heap_sync_loaded;
+    destruct (MODULE_SYNCS_BEFORE_EXPORTS && mu_run m); rewrite ?heap_sync_loaded;
       (destruct (mu_exports m); [exact K1|apply cache_ok_clear]). }
   pose proof (IH vm3 cs2 (N.succ u) K3) as H.
   destruct (load_modules_c C slot_of native_hint fuel vm3 cs2 (N.succ u) r) as [[[[vm4 cs3] u'] out2] s2].
@@ -236,7 +238,7 @@ Lemma mstep_c_m fuel cd st : cd_ok cd ->
   let '(cd', out, s) := mstep_c C slot_of native_hint fuel cd st in
   mstep C fuel (cd_d cd) st = (cd_d cd', out, s) /\ cd_ok cd'.
 Proof.
-  intros K. unfold cd_ok in K. destruct st as [imports compiles L body newmut imported|n nargs arg]; cbn [mstep_c mstep].
+  intros K. unfold cd_ok in K. destruct st as [imports compiles L body newmut imported|n nargs arg|n v]; cbn [mstep_c mstep].
   - set (vm0 := if REPL_CLEARS_FRAMES_FIRST then with_frames (d_vm (cd_d cd)) [] else d_vm (cd_d cd)).
     assert (K0 : cache_ok (m_heap vm0) (cd_cs cd)).
     { unfold vm0. destruct REPL_CLEARS_FRAMES_FIRST; rewrite ?heap_with_frames; exact K. }
@@ -265,6 +267,7 @@ Proof.
       destruct s; (split; [reflexivity|]); unfold cd_ok; cbn [cd_d cd_cs d_vm]; rewrite ?heap_do_return; try exact K2;
         try (destruct RUN_FAST_UNWINDS_ON_ERROR; rewrite ?heap_with_frames; exact K2).
     + destruct (negb (ar =? nargs)); (split; [reflexivity|exact K]).
+  - split; [reflexivity|]. unfold cd_ok. cbn [cd_d cd_cs d_vm]. apply cache_ok_clear.
 Qed.
 
 Theorem msession_c_m fuel : forall steps cd, cd_ok cd ->
